@@ -10,7 +10,7 @@ if [ ! -x "$BIN" ] || [ -n "$(find "$HERE/checker" -newer "$BIN" -name '*.go' 2>
   (cd "$HERE/checker" && go build -o "$BIN" .) 1>&2
 fi
 dir=$(mktemp -d /var/tmp/sebuf-b.XXXXXX); out=$(mktemp -d /var/tmp/sebuf-o.XXXXXX)
-cp -r /repo/. "$dir"/ && rm -rf "$dir/.git"
+cp -r "${VERIF_BASE_REPO:-/repo}"/. "$dir"/ && rm -rf "$dir/.git"
 (cd "$dir" && patch -p1 -s < "$patchf") || { echo "patch does not apply"; rm -rf "$dir" "$out"; exit 3; }
 log=$(mktemp)
 VERIF_OUT="$out" "$BIN" -repo "$dir" -verif "$HERE" -prop all -tier quick > "$log" 2>&1
